@@ -417,7 +417,10 @@ func (ex *Exec) schedule() *Thread {
 		if len(en) > 0 {
 			pick := en[0]
 			if len(en) > 1 {
-				pick = en[ex.decide(len(en), "sched", nil)]
+				if ex.cfg.SchedBudget == 0 || ex.schedChoices < ex.cfg.SchedBudget {
+					ex.schedChoices++
+					pick = en[ex.decide(len(en), "sched", nil)]
+				} // else: budget used up, lowest thread id first
 			}
 			ex.wake(pick)
 			return pick
